@@ -320,7 +320,17 @@ func init() {
 			"oracle on the complete-unlock system txs of finalised payloads: not before request time + required delay, exactly once, in (maturity, request) order, <= 16 per block, all released after a drain phase; " +
 			"a validator pushed below a threshold is inactive with power 0 and out of the next set in the same block, and exited validators' unlocks queue min(requested, holding). Non-trivial = every accepted unlock request; distinct = (exiting, status, below-threshold, clipped, batch size).",
 		Assume: []string{"liveness is judged as bounded progress: one time step beyond the exit period plus ceil(backlog/16)+4 blocks"},
-		Cases:  func(tier string) int { return map[string]int{"quick": 48, "thorough": 300}[tier] },
-		Run:    func(c *vc.Ctx, i int) { c15History(c, i) },
+		Cases:  func(tier string) int { return map[string]int{"quick": 48 + 8, "thorough": 300 + 60}[tier] },
+		Run: func(c *vc.Ctx, i int) {
+			if base := map[string]int{"quick": 48, "thorough": 300}[c.Tier]; i >= base {
+				combinedHistory(c, i-base, "c15x", c.Pick(60, 150), func(cfg *lockCfg) { cfg.W.Unlock, cfg.W.BigUnlock = 60, 20 }, func(h *lockHist) (func(), func()) {
+					mon := newC15Mon(h)
+					h.crashFn = func(cr *world.ErrCrash) { c.Inconclusive("FinalizeBlock failed (reported under C13): %v", cr) }
+					return mon.afterBlock, mon.drain
+				})
+				return
+			}
+			c15History(c, i)
+		},
 	})
 }
